@@ -470,6 +470,60 @@ func (c *cm3b) Define(api frontend.API) error {
 	return nil
 }
 
+// committed expressions whose lowest wire is the constant or a public input although they contain a secret
+type cmShift struct {
+	X, W frontend.Variable
+	P1   frontend.Variable `gnark:",public"`
+}
+
+func (c *cmShift) Define(api frontend.API) error {
+	api.AssertIsEqual(api.Mul(c.X, c.X), c.P1)
+	a, err := api.(frontend.Committer).Commit(api.Add(c.X, c.P1), api.Add(c.W, 1), api.Add(api.Mul(c.X, 2), 5))
+	if err != nil {
+		return err
+	}
+	api.AssertIsDifferent(a, c.W)
+	return nil
+}
+
+// k public inputs, m committed secrets, t constraints after the commitment
+type cmShape struct {
+	P       []frontend.Variable `gnark:",public"`
+	S       []frontend.Variable
+	k, m, t int
+}
+
+func newCmShape(k, m, t int) *cmShape {
+	return &cmShape{P: make([]frontend.Variable, k), S: make([]frontend.Variable, m), k: k, m: m, t: t}
+}
+
+func (c *cmShape) Define(api frontend.API) error {
+	for i := range c.P {
+		api.AssertIsEqual(api.Mul(c.S[i%c.m], c.S[i%c.m]), c.P[i])
+	}
+	cm, err := api.(frontend.Committer).Commit(c.S...)
+	if err != nil {
+		return err
+	}
+	acc := cm
+	for i := 0; i < c.t; i++ {
+		acc = api.Mul(acc, c.S[i%c.m])
+	}
+	return nil
+}
+
+func cmShapeAsg(k, m, t, j int) *cmShape {
+	a := newCmShape(k, m, t)
+	for i := range a.S {
+		a.S[i] = 3 + i + j
+	}
+	for i := range a.P {
+		v := 3 + i%m + j
+		a.P[i] = v * v
+	}
+	return a
+}
+
 func g16Specs() []g16Spec {
 	return []g16Spec{
 		{"cubic", func() frontend.Circuit { return &cubic{} }, func(k int) frontend.Circuit {
@@ -494,6 +548,13 @@ func g16Specs() []g16Spec {
 			x := int64(2 + k)
 			return &cm3b{X: x, W: 5 + int64(k), V: 11 + int64(k), P1: x * x}
 		}},
+		{"commit-shifted", func() frontend.Circuit { return &cmShift{} }, func(k int) frontend.Circuit {
+			x := int64(2 + k)
+			return &cmShift{X: x, W: 5 + int64(k), P1: x * x}
+		}},
+		{"commit-shape-3-4-0", func() frontend.Circuit { return newCmShape(3, 4, 0) }, func(k int) frontend.Circuit { return cmShapeAsg(3, 4, 0, k) }},
+		{"commit-shape-3-4-2", func() frontend.Circuit { return newCmShape(3, 4, 2) }, func(k int) frontend.Circuit { return cmShapeAsg(3, 4, 2, k) }},
+		{"commit-shape-1-1-0", func() frontend.Circuit { return newCmShape(1, 1, 0) }, func(k int) frontend.Circuit { return cmShapeAsg(1, 1, 0, k) }},
 		{"public-only", func() frontend.Circuit { return &pubOnly{} }, func(k int) frontend.Circuit { y := int64(2 + k); return &pubOnly{Y: y, Z: y * y, S: 7} }},
 		{"hinty", func() frontend.Circuit { return &hintyCircuit{} }, func(k int) frontend.Circuit {
 			x, y := int64(300+k), int64(7+k)
